@@ -80,6 +80,8 @@ type Term struct {
 	R      *big.Rat // constant Real (or exact value of an FP constant)
 	Signed bool     // Go signedness for BV
 	Conj   []Term   // conjuncts when built by And (used to split obligations)
+	AddOf  string   // for (bvadd X c): the text of X
+	AddC   *big.Int // and the constant c
 	NonNil bool     // for Err / pointer-like opaque: known != nil
 }
 
@@ -329,6 +331,22 @@ func BVAdd(a, b Term) Term {
 	}
 	if a.C != nil && a.C.Sign() == 0 {
 		return b
+	}
+	if a.C != nil && b.C == nil {
+		a, b = b, a
+	}
+	// (X + c1) + c2 = X + (c1+c2): keeps ghost-chain indices in a normal form
+	if b.C != nil && a.C == nil && a.S.K == KBV && a.S.Eq(b.S) {
+		base, c := a.E, new(big.Int)
+		if a.AddOf != "" {
+			base, c = a.AddOf, new(big.Int).Set(a.AddC)
+		}
+		sum := bvNorm(new(big.Int).Add(c, b.C), a.S.N)
+		if sum.Sign() == 0 {
+			return Term{S: a.S, E: base, Signed: a.Signed}
+		}
+		k := BVConst(sum, a.S.N, a.Signed)
+		return Term{S: a.S, E: "(bvadd " + base + " " + k.E + ")", Signed: a.Signed, AddOf: base, AddC: sum}
 	}
 	return bvBin("bvadd", a, b, func(x, y *big.Int) *big.Int { return new(big.Int).Add(x, y) })
 }
